@@ -76,6 +76,23 @@ def mat_bits(m):
 	return natlists([[int(x) for x in row] for row in np.asarray(m, dtype=np.float32).view(np.uint32).tolist()]) if m.ndim == 2 else None
 
 
+KIND = {'plain': 0, 'siglist': 1, 'array': 2, 'subarray': 2}
+
+
+def _dtok(d):
+	return f'{np_kind(d)}{np_size(d)}'
+
+
+def np_kind(d):
+	import numpy as np
+	return np.dtype(d).kind
+
+
+def np_size(d):
+	import numpy as np
+	return np.dtype(d).itemsize
+
+
 def check(ctx, case):
 	import numpy as np
 	from gambit import metric
@@ -198,6 +215,10 @@ def check(ctx, case):
 			        f'{natlists(out0)} {real}')
 			case['_nt'] = len(rs) >= 2 and len({x for row in table for x in row}) > 1
 			lines = [line]
+			if out is None and case.get('qcont', 'plain') == 'plain' and sum(map(len, rs)) + sum(map(len, qs)) <= 400:
+				# the definitions generated from the current source of jaccarddist_matrix / _array (tie T): same inputs, same bits
+				lines.append(f'pyg.matrix {KIND.get(case["rcont"], 1)} {_dtok(case.get("dtq", dt))} {_dtok(dt)} {natlists(qs)} {natlists(rs)} '
+				             f'{"~" if ridx_arg is None else ",".join(str(int(i)) for i in ridx_arg) or "-"} {opt(case.get("chunk"))} {real}')
 			if ridx is not None and neg and case.get('reuse_ridx') and case['rcont'] in ('array', 'siglist', 'plain', 'subarray'):
 				# the very same index object selects from a LONGER collection next: negative entries count from its end
 				rs2 = rs + [[7, 9, 11]]
@@ -219,7 +240,10 @@ def check(ctx, case):
 			res = metric.jaccarddist_array(np.array(q, dtype=case.get('dtq', dt)), refs, out=out)
 			real = nats(np.ascontiguousarray(res).view(np.uint32).tolist())
 			case['_nt'] = len(rs) >= 2 and len(set(table)) > 1
-			return [f'c05.array {nats(table)} {real}'], pyfails
+			extra = []
+			if out is None and sum(map(len, rs)) + len(q) <= 400:
+				extra.append(f'pyg.array {KIND.get(case["rcont"], 1)} {_dtok(case.get("dtq", dt))} {_dtok(dt)} {nats(q)} {natlists(rs)} {real}')
+			return [f'c05.array {nats(table)} {real}'] + extra, pyfails
 		if kind == 'pairwise':
 			ss = case['sigs']
 			table = table_of(ss, ss, dt, dt)
@@ -239,7 +263,10 @@ def check(ctx, case):
 				if n and not np.array_equal(res.view(np.uint32), res.T.view(np.uint32).copy()):
 					pass  # symmetry is judged by the driver through the closed form
 			case['_nt'] = n >= 3 and len({x for row in table for x in row}) > 2
-			return [f'c05.pairwise {natlists(table)} {nats(items)} {"1" if flat else "0"} {real}'], pyfails
+			extra = []
+			if out is None and sum(map(len, ss)) <= 300:
+				extra.append(f'pyg.pairwise {KIND.get(case["cont"], 1)} {_dtok(dt)} {natlists(ss)} {"~" if idx is None else nats(idx)} {"1" if flat else "0"} {real}')
+			return [f'c05.pairwise {natlists(table)} {nats(items)} {"1" if flat else "0"} {real}'] + extra, pyfails
 	except Exception as e:
 		import traceback
 		return [], [f'{kind} raised {exc_kind(e)}: {e} :: {traceback.format_exc(limit=3)[-300:]}']
